@@ -297,7 +297,7 @@ Fixpoint h_opts_loop (g : nat -> nat) (its : list hitem) (opts : slice) : M slic
 (* fhdr.go FHDR.MarshalBinary *)
 Definition h_fhdr_marshal (g : nat -> nat) (x : hfhdr) : M slice :=
   doM opts <- h_opts_loop g (h_fopts x) nil_slice;
-  let n := N.of_nat (slen opts) mod 256 in
+  let n := N.of_nat (slen opts) in                    (* len(opts) > 15 is tested before the narrowing (fix C07-3) *)
   if 15 <? n then failM else
   doM out <- sl_mk 0 (7 + N.to_nat n);
   doM out <- sl_app g out (rev (h_devaddr x));
